@@ -32,23 +32,52 @@ def rule_emit(m, rep, rid='R1', counters=False, strict=False, early_pure=False):
     cnt = count_events(body, lambda b: b in [s[0] for s in sends])
     ok = len(sends) == 1 and cnt == {1}
     early = set()
-    if not ok and not strict and len(sends) == 1 and cnt == {0, 1}:
-        # an emit that never reaches the queue is fine for everything but C10 as long as it says so (returns Err):
-        # look at the returns of the paths that avoid the enqueue
+    if not ok and len(sends) == 1 and cnt == {0, 1}:
+        # an emit that never reaches the queue is fine as long as it says so (returns Err) and
+        #  - the refusal is the queue-room refusal made early: it lies behind `sender.is_full() == true` on the worker's own
+        #    channel (fine for every property, C10 included: "an error once a bounded queue already holds its capacity"), or
+        #  - for everything but C10: any other refusal; where the sink must *keep* accepting (C11) it may depend on the
+        #    metric only, not on anything the sink remembers
         import copy
-        b2 = copy.copy(body)
-        b2.blocks = list(body.blocks)
-        b2.blocks[sends[0][0]] = dict(body.blocks[sends[0][0]], term={'k': 'unreachable'})
-        live = reach(b2, [0])
-        b2.blocks = [blk if i in live else dict(blk, stmts=[], term={'k': 'unreachable'}) for i, blk in enumerate(b2.blocks)]
+
+        def cut(b0, blocks_dead=(), edges_dead=()):
+            b2 = copy.copy(b0)
+            b2.blocks = list(b0.blocks)
+            for bi in blocks_dead:
+                b2.blocks[bi] = dict(b2.blocks[bi], term={'k': 'unreachable'})
+            for bi, succ in edges_dead:
+                dead = len(b2.blocks)
+                b2.blocks.append({'stmts': [], 'term': {'k': 'unreachable'}, 'cleanup': False})
+                tm = dict(b2.blocks[bi]['term'])
+                tm['targets'] = [(v_, dead if tb_ == succ else tb_) for v_, tb_ in tm['targets']]
+                if tm['otherwise'] == succ:
+                    tm['otherwise'] = dead
+                b2.blocks[bi] = dict(b2.blocks[bi], term=tm)
+            live = reach(b2, [0])
+            b2.blocks = [blk if i in live else dict(blk, stmts=[], term={'k': 'unreachable'}) for i, blk in enumerate(b2.blocks)]
+            return b2, live
+        b2, live = cut(body, [sends[0][0]])
         T2 = Terms(b2)
         early = set(ret_terms(T2, [0]))
         ok = bool(early) and all(r[0] == 'adt' and r[2] == 'Err' for r in early)
-        if ok and early_pure:
-            # ... and, where the sink must *keep* accepting (C11), the refusal may depend on the metric only, not on
-            # anything the sink remembers
-            for bi in live:
-                if b2.blocks[bi]['term']['k'] == 'switch' and any(x == ('param', 1) for x in walk(norm(T2.switch_facts(bi)[0]))):
+        # the edges taken when the worker's own queue reports itself full
+        full_edges = []
+        for bi in live:
+            if b2.blocks[bi]['term']['k'] != 'switch':
+                continue
+            dt, edges = T2.switch_facts(bi)
+            d = norm(dt)
+            if term_callee_is(d, 'crossbeam_channel::channel::Sender::is_full', 'crossbeam_channel::channel::Receiver::is_full') and \
+                    (_path_has_field(d[2][0], m.f_sender) or _path_has_field(d[2][0], m.f_receiver)):
+                full_edges += [(bi, s) for s, labs in edges.items() if ('bool', True) in labs]
+        b3, live3 = cut(body, [sends[0][0]], full_edges)
+        rest = set(ret_terms(Terms(b3), [0])) if any(b3.blocks[i]['term']['k'] == 'return' for i in live3) else set()
+        if ok and rest and strict:
+            ok = False
+        if ok and rest and early_pure:
+            T3 = Terms(b3)
+            for bi in live3:
+                if b3.blocks[bi]['term']['k'] == 'switch' and any(x == ('param', 1) for x in walk(norm(T3.switch_facts(bi)[0]))):
                     ok = False
     rep.ob(rid, 'emit/enqueues-exactly-once', ok, body.where(sends[0][0]) if sends else emit.where(),
            ('every path through emit performs exactly one send on the worker channel' if not early else 'every path through emit performs one send on the worker channel or refuses with Err before it') if ok else
@@ -182,7 +211,7 @@ def rule_one_consumer(m, rep, rid='R2', parts=('receiver', 'callers')):
     rep.ob(rid, 'build-spawns-once', cb == {1}, m.build.where(), 'build() spawns exactly one worker thread (counts %s)' % sorted(cb))
     # spawn fn passes its Arc<Worker> to the closure which calls run on it
     Ts = Terms(m.spawn)
-    spc = [bi for bi, t in m.spawn.calls() if callee_is(t, 'std::thread::functions::spawn')]
+    spc = [bi for bi, t in m.spawn.calls() if callee_is(t, *SPAWN_CALLS)]
     oks = len(spc) == 1
     rep.ob(rid, 'spawn-one-thread', oks, m.spawn.where(), 'one thread::spawn per call')
 
@@ -780,13 +809,17 @@ def rule_counters(m, rep):
     for f in adt_fields(cad, m.stats_adt):
         if f['name'] in m.counters.values() and type_head(f['ty']) in cad.adts:
             wrappers.add(type_head(f['ty']))
+    # ... or be updated through a private helper that is handed the atomic (`fn bump(c: &AtomicU64, order)`): analysed where
+    # it is applied to a counter, too
+    helpers = set(x.path for x in cad.all_bodies if in_module_of(x, Q) and x.def_kind in ('Fn', 'AssocFn') and not x.j.get('reachable') and
+                  any(x.locals[i].startswith('&') and 'core::sync::atomic::Atomic' in x.locals[i] for i in range(1, x.arg_count + 1)))
     for b in cad.all_bodies:
         if not in_module_of(b, Q):
             continue
-        if wrappers:
-            if b.impl_self and type_head(b.impl_self) in wrappers:
+        if wrappers or helpers:
+            if (b.impl_self and type_head(b.impl_self) in wrappers) or b.path in helpers:
                 continue
-            b = inline(cad, b, local_picker(cad, only=lambda x: bool(x.impl_self) and type_head(x.impl_self) in wrappers))
+            b = inline(cad, b, local_picker(cad, only=lambda x: (bool(x.impl_self) and type_head(x.impl_self) in wrappers) or x.path in helpers))
         T = None
         for bi, t in b.calls():
             if b.blocks[bi].get('dead'):
